@@ -732,6 +732,14 @@ func (u *Unit) callSiteClauses(ev *Ev, ord string, names []string, args []Value,
 		g := sev.expr(cl.Expr)
 		u.emit(ev.st, fmt.Sprintf("assert@%s#%d", ord, i), g.T, cl.Text)
 	}
+	// "call Name#*: assert ..." holds at every call of Name in the unit, wherever it is (or is later added)
+	if j := strings.LastIndex(ord, "#"); j > 0 {
+		for i, cl := range u.c.CallAsserts[ord[:j]+"#*"] {
+			sev := mk()
+			g := sev.expr(cl.Expr)
+			u.emit(ev.st, fmt.Sprintf("assert@%s#any%d", ord, i), g.T, cl.Text)
+		}
+	}
 	for _, cl := range u.c.CallAssumes[ord] {
 		sev := mk()
 		g := sev.expr(cl.Expr)
@@ -1385,6 +1393,9 @@ func (u *Unit) syncCall(ev *Ev, x *ast.CallExpr, f *types.Func, recv *Value) (Va
 		sel, ok := ast.Unparen(x.Fun).(*ast.SelectorExpr)
 		if !ok {
 			return Value{K: vTuple}, true
+		}
+		if ord, ok := u.callOrd[x]; ok {
+			u.callSiteClauses(ev, ord, nil, nil, nil) // e.g. "call Lock#*: assert ..." (where a lock may be taken)
 		}
 		u.lockOp(ev, sel.X, name, x)
 		return Value{K: vTuple}, true
